@@ -1,22 +1,30 @@
 // ---- BX support (not code under test): a controlled scheduler.  The programs of one scenario run on OS threads, but only
 // the thread the scheduler chose runs; every acquisition of a shim lock (and every call into a harness service) is a
-// scheduling point, a failed try-lock parks the thread until some lock is released.  `explore` enumerates EVERY schedule of
-// the scenario by depth-first search over the choices.  Locks have no fairness or writer preference: the schedules are a
+// scheduling point, a failed try-lock parks the thread until some lock is released.  The harness enumerates EVERY schedule of
+// the scenario by depth-first search over the choices (or, where stated, every schedule with at most PREEMPTION_BOUND
+// pre-emptive context switches).  Locks have no fairness or writer preference: the schedules are a
 // superset of what std's locks allow.
 pub mod sched {
     use std::cell::Cell;
     use std::sync::{Condvar, Mutex};
-    pub struct St { pub active: bool, pub current: usize, pub status: Vec<u8>, pub prefix: Vec<usize>, pub trace: Vec<(usize, usize)>, pub order: Vec<usize>, pub abort: bool, pub panicked: Vec<usize> }
-    pub static ST: Mutex<St> = Mutex::new(St { active: false, current: usize::MAX, status: Vec::new(), prefix: Vec::new(), trace: Vec::new(), order: Vec::new(), abort: false, panicked: Vec::new() });
+    pub struct St { pub active: bool, pub current: usize, pub status: Vec<u8>, pub prefix: Vec<usize>, pub trace: Vec<(usize, usize)>, pub order: Vec<usize>, pub abort: bool, pub panicked: Vec<usize>, pub last: usize, pub preemptions: usize }
+    /// at most this many pre-emptive context switches per schedule (usize::MAX = every schedule); set by the harness
+    pub static PREEMPTION_BOUND: std::sync::atomic::AtomicUsize = std::sync::atomic::AtomicUsize::new(usize::MAX);
+    pub static ST: Mutex<St> = Mutex::new(St { active: false, current: usize::MAX, status: Vec::new(), prefix: Vec::new(), trace: Vec::new(), order: Vec::new(), abort: false, panicked: Vec::new(), last: usize::MAX, preemptions: 0 });
     pub static CV: Condvar = Condvar::new();
     thread_local! { pub static ME: Cell<usize> = Cell::new(usize::MAX); }
     pub struct Aborted;
     fn pick(st: &mut St) {
-        let opts: Vec<usize> = (0..st.status.len()).filter(|i| st.status[*i] == 0).collect();
+        let mut opts: Vec<usize> = (0..st.status.len()).filter(|i| st.status[*i] == 0).collect();
         if opts.is_empty() { st.current = usize::MAX; if st.status.iter().any(|s| *s == 1) { st.abort = true; } return; }
+        // switching away from a thread that could continue is a pre-emption; with the budget used up it keeps running
+        let can_continue = opts.contains(&st.last);
+        if can_continue && st.preemptions >= PREEMPTION_BOUND.load(std::sync::atomic::Ordering::Relaxed) { opts = vec![st.last]; }
         let step = st.trace.len();
         let c = if step < st.prefix.len() { st.prefix[step].min(opts.len() - 1) } else { 0 };
-        st.trace.push((opts.len(), c)); st.order.push(opts[c]); st.current = opts[c];
+        st.trace.push((opts.len(), c)); st.order.push(opts[c]);
+        if can_continue && opts[c] != st.last { st.preemptions += 1; }
+        st.current = opts[c]; st.last = opts[c];
     }
     fn wait_turn(mut st: std::sync::MutexGuard<'static, St>, me: usize) {
         while st.current != me {
@@ -38,7 +46,7 @@ pub mod sched {
     pub struct Outcome { pub trace: Vec<(usize, usize)>, pub order: Vec<usize>, pub deadlock: bool, pub panicked: Vec<usize> }
     /// runs the programs under the schedule that follows `prefix` and then always takes the first runnable thread
     pub fn run(progs: Vec<Box<dyn FnOnce() + Send>>, prefix: &[usize]) -> Outcome {
-        { let mut st = ST.lock().unwrap(); *st = St { active: true, current: usize::MAX, status: vec![0; progs.len()], prefix: prefix.to_vec(), trace: vec![], order: vec![], abort: false, panicked: vec![] }; }
+        { let mut st = ST.lock().unwrap(); *st = St { active: true, current: usize::MAX, status: vec![0; progs.len()], prefix: prefix.to_vec(), trace: vec![], order: vec![], abort: false, panicked: vec![], last: usize::MAX, preemptions: 0 }; }
         let hs: Vec<_> = progs.into_iter().enumerate().map(|(i, p)| std::thread::spawn(move || {
             ME.with(|m| m.set(i));
             let r = std::panic::catch_unwind(std::panic::AssertUnwindSafe(move || { wait_turn(ST.lock().unwrap(), i); p() }));
